@@ -309,6 +309,7 @@ ALPHA = [
     {"op": "get_many", "keys": [K, "k1"]},
     {"op": "set_many", "values": {K: b"m", "k1": b"7"}, "noreply": False},
     {"op": "add", "key": K, "value": b"9", "noreply": True},
+    {"op": "set", "key": K, "value": b"nl\n", "noreply": False},
 ]
 ALPHA16 = [ALPHA[i] for i in (0, 1, 2, 3, 4, 5, 7, 9, 10, 11, 13, 15, 16, 17, 19, 21)]
 
@@ -338,7 +339,8 @@ def minimise(case, still_fails):
 
 def history_strategy(tier):
     key = st.sampled_from(KEYS)
-    value = st.sampled_from([b"v", b"", b"0", b"5", b"41", b"18446744073709551615", b"abc", b"12x", b"a\r\nb", b"END"])
+    value = st.sampled_from([b"v", b"", b"0", b"5", b"41", b"18446744073709551615", b"abc", b"12x", b"a\r\nb", b"END",
+                             b"line\n", b"x\r", b"\r\n", b"\n", b"two\r\n\r\n"])
     noreply = st.sampled_from([None, None, True, False])
     expire = st.sampled_from([0, 0, 0, -1, 1, 2, 5, DAY30, DAY30 + 1, 1_700_000_003])
 
